@@ -78,11 +78,19 @@ type ModAnalysis struct {
 	// dynamic calls through function values whose target is unknown
 	DynCalls map[string]bool
 	changed  bool
+	// exempt functions are treated as writing nothing (used to factor out the
+	// representation-reorganising routines of the paginated store)
+	exempt map[*ssa.Function]bool
 }
 
-func newModAnalysis(p *Program) *ModAnalysis {
-	m := &ModAnalysis{prog: p, Mods: map[*ssa.Function]locSet{}, Rets: map[*ssa.Function][]locSet{}, known: map[*ssa.Function]bool{},
+func newModAnalysis(p *Program, exempt ...*ssa.Function) *ModAnalysis {
+	m := &ModAnalysis{prog: p, exempt: map[*ssa.Function]bool{}, Mods: map[*ssa.Function]locSet{}, Rets: map[*ssa.Function][]locSet{}, known: map[*ssa.Function]bool{},
 		allocID: map[ssa.Value]int{}, pts: map[*ssa.Function]map[string]locSet{}, AssumedPure: map[string]bool{}, impls: map[string][]*ssa.Function{}, DynCalls: map[string]bool{}}
+	for _, f := range exempt {
+		if f != nil {
+			m.exempt[f] = true
+		}
+	}
 	for _, f := range p.Funcs {
 		m.addFunc(f)
 	}
@@ -422,7 +430,7 @@ var libRetAlias = map[string][]int{
 	"google.golang.org/protobuf/encoding/protowire.AppendFixed32": {0},
 	"google.golang.org/protobuf/encoding/protowire.AppendBytes":   {0},
 	"google.golang.org/protobuf/encoding/protowire.AppendTag":     {0},
-	"(*bytes.Buffer).Bytes":                                       {0},
+	"(*bytes.Buffer).Bytes": {0},
 }
 
 var libPurePkgs = map[string]bool{"math": true, "math/bits": true, "errors": true, "fmt": true, "strconv": true, "google.golang.org/protobuf/encoding/protowire": true}
@@ -474,7 +482,7 @@ func (a *modFn) callRet(c *ssa.Call, idx int) locSet {
 }
 
 func (m *ModAnalysis) analyse(f *ssa.Function) {
-	if len(f.Blocks) == 0 {
+	if len(f.Blocks) == 0 || m.exempt[f] {
 		return
 	}
 	a := &modFn{m: m, f: f, dv: map[ssa.Value]locSet{}, bsy: map[ssa.Value]bool{}}
